@@ -2,6 +2,7 @@
 From mathcomp Require Import all_ssreflect all_algebra.
 From SsrMultinomials Require Import mpoly.
 From NP Require Import Base Poly Query Eval Abs Align EvalP SubstP.
+From NP Require Import GenSource BridgeSrcC02.
 Set Implicit Arguments. Unset Strict Implicit. Unset Printing Implicit Defensive.
 Import GRing.Theory.
 Local Open Scope ring_scope.
@@ -87,6 +88,11 @@ Theorem C02_broadcast_index_in_range a t j : bshape a t = Some t -> (j < prodn t
 Proof. exact: bidx_lt. Qed.
 End C02.
 
+(* the /repo functions this model was written from are still, statement by statement, the modelled ones *)
+Theorem C02_sources_are_the_modelled_ones :
+  all (all id) [:: gen_src_call] /\ [seq size f | f <- [:: gen_src_call]] = [:: 14]%N.
+Proof. exact: bridge_src_C02. Qed.
+
 Print Assumptions C02_numeric_evaluation.
 Print Assumptions C02_argument_shapes_must_broadcast.
 Print Assumptions C02_unknown_name.
@@ -96,3 +102,4 @@ Print Assumptions C02_substitution.
 Print Assumptions C02_substitution_terms.
 Print Assumptions C02_staged_evaluation.
 Print Assumptions C02_broadcast_index_in_range.
+Print Assumptions C02_sources_are_the_modelled_ones.
